@@ -10,7 +10,7 @@ a flushall <s|c>                  the kernel has taken the whole message
 a recv <s|c> <hex message>        recv_bytes returned this message at that endpoint
 frame <hex message> <hex wire>    raw bytes a real Connection wrote for the message (checked = frame m,
                                   and readFrame (wire ++ wire) = (m, wire))
-end                               → `ok <id> …` / `REJECT …` / `MISMATCH …`
+end quiet=<0|1>                   → `ok <id> …` / `REJECT …` / `MISMATCH …` / `NOFINAL …` (quiet: nothing may be left in transit)
 ```
 -/
 namespace Pipe.Drv
@@ -78,9 +78,13 @@ partial def loop (h : IO.FS.Stream) (st : St) : IO Unit := do
         loop h { st with dead := true }
       else loop h { st with frames := st.frames + 1 }
     | _, _ => IO.println s!"REJECT {st.id} {st.k} bad-line"; loop h { st with dead := true }
-  | "end" :: _ =>
+  | "end" :: rest =>
     if !st.dead then
-      IO.println s!"ok {st.id} actions={st.k} frames={st.frames} rs={(st.s.rcvdBy .server).length} rc={(st.s.rcvdBy .client).length}"
+      let quiet := _root_.Drv.getN (_root_.Drv.kvs rest) "quiet" == 1
+      if quiet && (st.s.rcvdBy .server != st.s.sentBy .client || st.s.rcvdBy .client != st.s.sentBy .server) then
+        IO.println s!"NOFINAL {st.id} {st.k} the implementation came to rest but the model still has messages in transit"
+      else
+        IO.println s!"ok {st.id} actions={st.k} frames={st.frames} rs={(st.s.rcvdBy .server).length} rc={(st.s.rcvdBy .client).length}"
     loop h { st with dead := true }
   | _ => loop h st
 
